@@ -44,9 +44,11 @@ let () = iter_lines (fun line ->
     Buffer.add_string buf " ; raw ok ; visit";
     Stdlib.List.iter (fun o -> Buffer.add_string buf (" " ^ zs o)) offs;
     print_endline (Buffer.contents buf)
-  | first :: rest0 when first = "F" || (first <> "v" && first <> "c") ->
+  | first :: rest0 when first = "F" || first = "D" || (first <> "v" && first <> "c") ->
     let failing = (first = "F") in
-    let (l, keep, rest) = (match (if failing then rest0 else first :: rest0) with l :: keep :: rest -> (l, keep, rest) | _ -> ("4", "0", ["?bad"])) in
+    let (l, keep, rest) = (match (if failing || first = "D" then rest0 else first :: rest0) with l :: keep :: rest -> (l, keep, rest) | _ -> ("4", "0", ["?bad"])) in
+    (* A / G / H as the first op = DataColumnList(column, columns...): in the model, an Add on the empty list *)
+    let rest = (match rest with t :: tl when t = "A" || t = "G" || t = "H" -> String.lowercase_ascii t :: tl | _ -> rest) in
     let lz = z_of_string l in
     let keepb = (keep = "1") in
     (* split into ops *)
